@@ -151,18 +151,19 @@ def check_activity_guards(ctx, rule="CMP-activity"):
               f"the {what} activity guard disagrees with begin-inclusive/end-exclusive activity: "
               + "; ".join(f"b={b} e={e} t=10: skips={got}, TTML says inactive={want}" for b, e, got, want in wrong[:3]))
   # from_model content-interval short cut
-  ci_tests = [g for g in own_nodes(fm.node) if isinstance(g, ast.If) and "content_interval[0]" in unparse(g.test) and tparam_fm in names_in(g.test) and exits_after(g)]
+  ci_tests = [g for g in own_nodes(fm.node) if isinstance(g, ast.If) and ("content_interval[0]" in unparse(g.test) or "content_interval[1]" in unparse(g.test)) and tparam_fm in names_in(g.test) and exits_after(g)]
   n += 1
   if not ci_tests:
     ctx.ok(rule, f"{fm.qualname}|content-interval short cut absent", ctx.where(fm.module, fm.node), "no content-interval short cut")
   else:
     g = ci_tests[0]
     recv = None
-    for a in ast.walk(g.test):
-      if isinstance(a, ast.Subscript) and unparse(a).endswith("content_interval[0]"):
-        recv = unparse(a.value)
-    test = substitute(g.test, {f"{recv}[0]": "__b", f"{recv}[1]": "__e"})
-    rows = eval_skip_tests(ix, fm, [test], "__b", "__e", tparam_fm, b_may_be_none=False)
+    for gg in ci_tests:
+      for a in ast.walk(gg.test):
+        if isinstance(a, ast.Subscript) and unparse(a).endswith(("content_interval[0]", "content_interval[1]")):
+          recv = unparse(a.value)
+    tests_ = [substitute(gg.test, {f"{recv}[0]": "__b", f"{recv}[1]": "__e"}) for gg in ci_tests]
+    rows = eval_skip_tests(ix, fm, tests_, "__b", "__e", tparam_fm, b_may_be_none=False)
     wrong = [(b, e, got, want) for (b, e, got, want) in rows if got != want]
     ctx.check(not wrong, rule, f"{fm.qualname}|content-interval short cut", ctx.where(fm.module, g),
               f"skip <=> t outside [b, e) for all {len(rows)} orderings",
